@@ -32,6 +32,8 @@ RULE = ('all grid shapes with 1..5 points per dimension in 1-D and 2-D and 1..3 
         'zeros included, integer entries) x formats csr/csc/coo/dia/bsr/None x dtypes: dense(stencil_grid) == Stencil model == '
         'Stencil spec (exact, inside Coq); Poisson FD/FE in 1-3 D; diffusion FE/FD over eps/theta; Q1 elasticity over grid '
         'shapes x spacings x (E, nu) x Dirichlet on/off.  Non-trivial: more than one grid point.')
+RULE += (' '
+         'FE Poisson: tensor-product spectrum 3^N - prod(1 + 2 cos) and zero interior row sums.')
 TRUSTED = ['SciPy dia_array semantics and format conversion', 'NumPy eigvalsh on the oracle side']
 PARTIAL = ['stencil theorem bounded to grids <= 3 per dimension', 'Poisson spectrum and elasticity: oracle only']
 HEADER = ('From Coq Require Import ZArith List.\nImport ListNotations.\n'
